@@ -150,9 +150,9 @@ _k("s10_drop_recv_mpmc_n2", MQ_S, "S", ["C05", "C09", "C11", "C12", "C13", "C16"
 _k("s10_unsub_recv_mpmc_n2", MQ_S, "S", ["C09", "C11", "C12", "C16", "C17"], "thorough", "N=2, 1 stream; unsubscribe()")
 
 # S9 add_stream (sequential)
-_k("s9_add_stream_bcast_n2_k1", MQ_S, "S", ["C09", "C10", "C16"], "quick", "N=2, 1 stream")
-_k("s9_add_stream_bcast_n2_k2", MQ_S, "S", ["C09", "C10", "C16"], "quick", "N=2, 2 streams")
-_k("s9_add_stream_bcast_n4_k2", MQ_S, "S", ["C09", "C10", "C16"], "thorough", "N=4, 2 streams")
+_k("s9_add_stream_bcast_n2_k1", MQ_S, "S", ["C01", "C03", "C09", "C10", "C16"], "quick", "N=2, 1 stream")
+_k("s9_add_stream_bcast_n2_k2", MQ_S, "S", ["C01", "C03", "C09", "C10", "C16"], "quick", "N=2, 2 streams")
+_k("s9_add_stream_bcast_n4_k2", MQ_S, "S", ["C01", "C03", "C09", "C10", "C16"], "thorough", "N=4, 2 streams")
 
 # S11 teardown of the ring
 for fl in ("bcast", "mpmc"):
@@ -162,26 +162,26 @@ for fl in ("bcast", "mpmc"):
 
 # S12 futures layer (spin counts concrete: s<first><yield>)
 for (nm, tier, props) in (
-        ("start_send_bcast_n2_k0", "quick", ["C13", "C15"]),
-        ("start_send_mpmc_n2_k0", "quick", ["C13", "C15"]),
-        ("start_send_bcast_n2_s00", "quick", ["C01", "C03", "C14", "C15"]),
-        ("start_send_bcast_n2_s11", "thorough", ["C01", "C03", "C14", "C15"]),
-        ("start_send_mpmc_n2_s00", "quick", ["C01", "C03", "C14", "C15"]),
-        ("start_send_mpmc_n1_s21", "thorough", ["C01", "C03", "C14", "C15"]),
-        ("poll_shared_bcast_n2_s00", "quick", ["C01", "C07", "C14", "C15"]),
-        ("poll_shared_bcast_n2_s11", "thorough", ["C01", "C07", "C14", "C15"]),
-        ("poll_shared_mpmc_n2_s00", "quick", ["C01", "C07", "C14", "C15"]),
-        ("poll_shared_mpmc_n1_s11", "thorough", ["C01", "C07", "C14", "C15"]),
-        ("poll_uni_bcast_n2_s00", "quick", ["C01", "C04", "C07", "C14", "C15"]),
-        ("poll_uni_mpmc_n2_s11", "quick", ["C01", "C04", "C05", "C07", "C14", "C15"]),
-        ("direct_try_recv_bcast_n2", "quick", ["C14", "C15", "C18"]),
-        ("direct_try_recv_mpmc_n2", "quick", ["C14", "C15", "C18"]),
-        ("direct_recv_bcast_n2", "quick", ["C14", "C15"]),
-        ("direct_recv_mpmc_n2", "thorough", ["C14", "C15"]),
-        ("direct_uni_try_bcast_n2", "quick", ["C14", "C15", "C18"]),
-        ("direct_uni_try_mpmc_n2", "thorough", ["C14", "C15", "C18"]),
-        ("direct_uni_recv_bcast_n2", "thorough", ["C14", "C15"]),
-        ("direct_uni_recv_mpmc_n2", "quick", ["C14", "C15"]),
+        ("start_send_bcast_n2_k0", "quick", ["C09", "C13", "C15"]),
+        ("start_send_mpmc_n2_k0", "quick", ["C09", "C13", "C15"]),
+        ("start_send_bcast_n2_s00", "quick", ["C09", "C01", "C03", "C14", "C15"]),
+        ("start_send_bcast_n2_s11", "thorough", ["C09", "C01", "C03", "C14", "C15"]),
+        ("start_send_mpmc_n2_s00", "quick", ["C09", "C01", "C03", "C14", "C15"]),
+        ("start_send_mpmc_n1_s21", "thorough", ["C09", "C01", "C03", "C14", "C15"]),
+        ("poll_shared_bcast_n2_s00", "quick", ["C09", "C01", "C07", "C14", "C15"]),
+        ("poll_shared_bcast_n2_s11", "thorough", ["C09", "C01", "C07", "C14", "C15"]),
+        ("poll_shared_mpmc_n2_s00", "quick", ["C09", "C01", "C07", "C14", "C15"]),
+        ("poll_shared_mpmc_n1_s11", "thorough", ["C09", "C01", "C07", "C14", "C15"]),
+        ("poll_uni_bcast_n2_s00", "quick", ["C09", "C01", "C04", "C07", "C14", "C15"]),
+        ("poll_uni_mpmc_n2_s11", "quick", ["C09", "C01", "C04", "C05", "C07", "C14", "C15"]),
+        ("direct_try_recv_bcast_n2", "quick", ["C09", "C14", "C15", "C18"]),
+        ("direct_try_recv_mpmc_n2", "quick", ["C09", "C14", "C15", "C18"]),
+        ("direct_recv_bcast_n2", "quick", ["C09", "C14", "C15"]),
+        ("direct_recv_mpmc_n2", "thorough", ["C09", "C14", "C15"]),
+        ("direct_uni_try_bcast_n2", "quick", ["C09", "C14", "C15", "C18"]),
+        ("direct_uni_try_mpmc_n2", "thorough", ["C09", "C14", "C15", "C18"]),
+        ("direct_uni_recv_bcast_n2", "thorough", ["C09", "C14", "C15"]),
+        ("direct_uni_recv_mpmc_n2", "quick", ["C09", "C14", "C15"]),
         ("recv_blocks_bcast_n2", "quick", ["C15"]),
         ("recv_blocks_mpmc_n2", "quick", ["C15"]),
         ("recv_blocks_uni_bcast_n2", "thorough", ["C15"]),
@@ -195,7 +195,7 @@ for (nm, tier, props) in (
 
 _k("s12_into_single_bcast_n2", MQ_S, "S", ["C09", "C12", "C14", "C15"], "quick", "N=2, 2 streams, <=3 consumers; into_single on a futures receiver")
 _k("s12_into_single_mpmc_n2", MQ_S, "S", ["C09", "C12", "C14", "C15"], "quick", "N=2, 1 stream")
-_k("s12_uni_into_multi_bcast_n2", MQ_S, "S", ["C09", "C10", "C14", "C15"], "quick", "N=2, 2 streams; FutInnerUniRecv::into_multi")
+_k("s12_uni_into_multi_bcast_n2", MQ_S, "S", ["C01", "C09", "C10", "C14", "C15"], "quick", "N=2, 2 streams; FutInnerUniRecv::into_multi")
 _k("s12_uni_add_stream_bcast_n2", MQ_S, "S", ["C09", "C10", "C14", "C15"], "thorough", "N=2, 2 streams; add_stream_with")
 
 # S12w: FutWait alone (callee contracts of the futures harnesses)
